@@ -153,7 +153,9 @@ CLAIMED = {
            "iteration order, no unguarded dereference of the analyser is reached (induction on the fuel through $ref cycles, allOf, items, "
            "properties; both hypotheses shown necessary); the hypothesis is tied to the reference validator on a sample of each run. "
            "guard_returns / guard_marks / key_ignores_depth state the mechanism of the recursion guard (a $ref at a visited key returns with the state untouched, following a $ref marks the key, "
-           "the key reads the first two location nodes only). Termination itself ('never loops') is not proved - the model recurses on fuel; the real recursion is exercised by the sweep - labelled partial."),
+           "the key reads the first two location nodes only). terminates_acyclic / returns_report: for documents without recursive definitions (every schema, $refs followed, at most d levels deep - "
+           "Spec.fitsB, evaluated by the driver on every generated document: about half of them) the analyser does not run out of fuel d+1 and, with validity, returns a report. "
+           "Termination on RECURSIVE definitions is not closed by a theorem (the model recurses on fuel there; exercised by the sweep) - labelled partial."),
   "note": DIFF_NOTE,
  },
  "C13": {
